@@ -22,6 +22,9 @@ pub struct SCase {
     /// idle points a controller spends between BARRIER-UP and BARRIER-DOWN
     pub hold_points: u8,
     pub schedule: Vec<u8>,
+    /// free-running: the threads race for real (no scheduler, the product's hook points are inert)
+    #[serde(default)]
+    pub free: bool,
 }
 
 pub fn strategy() -> impl Strategy<Value = SCase> {
@@ -31,7 +34,13 @@ pub fn strategy() -> impl Strategy<Value = SCase> {
         0u8..4,
         prop::collection::vec(any::<u8>(), 0..160),
     )
-        .prop_map(|(senders, controllers, hold_points, schedule)| SCase { senders, controllers, hold_points, schedule })
+        .prop_map(|(senders, controllers, hold_points, schedule)| SCase { senders, controllers, hold_points, schedule, free: false })
+}
+
+/// free-running races: no schedule, real threads released together
+pub fn free_strategy() -> impl Strategy<Value = SCase> {
+    (prop::collection::vec(prop::collection::vec(prop_oneof![1 => Just(0u8), 3 => Just(1u8)], 1..4), 1..=3), 1u8..=2, 0u8..3, any::<u8>())
+        .prop_map(|(senders, controllers, hold_points, tag)| SCase { senders, controllers, hold_points, schedule: vec![tag], free: true })
 }
 
 #[derive(Debug, Clone, PartialEq)]
@@ -144,7 +153,7 @@ pub fn check(case: &SCase, obs: &mut Obs) -> Result<(), Fail> {
     let nsend = case.senders.len();
     let nctrl = case.controllers as usize;
     let total_threads = nsend + nctrl + 1;
-    let sched = Sched::new(total_threads, case.schedule.clone());
+    let sched = if case.free { Sched::new_free(total_threads) } else { Sched::new(total_threads, case.schedule.clone()) };
     let done_senders = Arc::new(AtomicU64::new(0));
     let done_ctrl = Arc::new(AtomicU64::new(0));
     let mut bodies: Vec<Box<dyn FnOnce(usize) + Send>> = vec![];
@@ -212,9 +221,12 @@ pub fn check(case: &SCase, obs: &mut Obs) -> Result<(), Fail> {
         let sched2 = sched.clone();
         let hold = case.hold_points;
         let done = done_ctrl.clone();
+        let ds = done_senders.clone();
+        let inf = in_flight.clone();
         bodies.push(Box::new(move |me| {
             sched2.point(me, "ctrl:before_start");
             let handle = queue.start_blocking();
+            let mut idle_polls = 0u32;
             loop {
                 if queue.blocking_done() {
                     break;
@@ -222,6 +234,16 @@ pub fn check(case: &SCase, obs: &mut Obs) -> Result<(), Fail> {
                 sched2.point(me, "ctrl:poll");
                 if sched2.runaway() {
                     break;
+                }
+                if sched2.is_free() {
+                    // every sender returned and nothing is in flight: the counter cannot change any more
+                    if ds.load(Ordering::SeqCst) as usize == nsend && inf.lock().is_empty() {
+                        idle_polls += 1;
+                        if idle_polls > 10_000 {
+                            break;
+                        }
+                    }
+                    std::thread::yield_now();
                 }
             }
             log.push(Ev::BarrierUp(c));
@@ -252,6 +274,9 @@ pub fn check(case: &SCase, obs: &mut Obs) -> Result<(), Fail> {
                         if in_flight.lock().is_empty() {
                             break;
                         }
+                    }
+                    if sched2.is_free() {
+                        std::thread::yield_now();
                     }
                     sched2.point(me, "completer:idle");
                     if sched2.runaway() {
@@ -335,6 +360,12 @@ pub fn check(case: &SCase, obs: &mut Obs) -> Result<(), Fail> {
         obs.nontrivial = true;
         obs.class("controller-step-while-a-sender-is-inside-send");
     }
+    if case.free {
+        obs.class("free-running");
+        if nctrl >= 2 || nsend >= 2 {
+            obs.nontrivial = true;
+        }
+    }
     obs.class(format!("senders:{}", nsend));
     obs.class(format!("controllers:{}", nctrl));
     obs.maximum("steps", sched.steps());
@@ -355,7 +386,7 @@ pub fn exhaustive_cases(len: usize) -> Vec<SCase> {
             schedule.push(((c % n) * 64 + 1) as u8);
             c /= n;
         }
-        out.push(SCase { senders: vec![vec![1], vec![1]], controllers: 1, hold_points: 1, schedule });
+        out.push(SCase { senders: vec![vec![1], vec![1]], controllers: 1, hold_points: 1, schedule, free: false });
     }
     out
 }
@@ -373,19 +404,21 @@ pub fn exhaustive_cases_two_controllers(len: usize) -> Vec<SCase> {
             schedule.push(((c % n) * 64 + 1) as u8);
             c /= n;
         }
-        out.push(SCase { senders: vec![vec![1]], controllers: 2, hold_points: 0, schedule });
+        out.push(SCase { senders: vec![vec![1]], controllers: 2, hold_points: 0, schedule, free: false });
     }
     out
 }
 
 pub const RULE: &str = "the REAL BlockingMap / TaskBlockingQueue / TaskBlockingQueueSender / BlockingHandle over two mock senders (inner = handed to the source Redis, keeps the CounterTask alive until a completer thread drops it; retry = re-dispatched), driven by real OS threads under a deterministic cooperative scheduler: 1..3 sender threads (1..3 commands each, hint computed like RedisScanMigratingTask::send, Retry recomputed up to 3 times), 1..2 controllers (start_blocking, poll blocking_done, BARRIER-UP, hold, BARRIER-DOWN, drop the handle) and a completer; control changes hands only at the scheduling points compiled into undermoon by hook H3 (before every shared-memory access of proxy/blocking.rs and between the load and the compare-exchange of common/biatomic.rs) and at harness points; the schedule is a generated byte vector (then round robin); [exhaustive] every schedule prefix of length 9 over 4 participants for 2 senders x 1 command and 1 controller [exhaustive] and for 1 sender and 2 controllers [exhaustive-2ctrl]; oracle over the logically time-stamped event log: no command handed to Redis while a barrier is up, every command ends in exactly one of {handed to Redis once, re-dispatched once, given up}, at quiescence not blocking and no running command; non-trivial = a controller step executed while a sender was between its counter increment/state read/enqueue/re-check; distinct = hash of the case";
 
+pub const RULE_FREE: &str = "[free-running] the same participants and the same event-log oracle WITHOUT the scheduler: 1..3 senders, 1..2 controllers and the completer are real threads released together by a barrier and race freely (the product's hook points are inert), so interleavings inside code that carries no hook point (e.g. a rewritten compare-and-swap loop) are reachable too; sound (a logged event order is a real execution order) but not reproducible: a violation is reported with the observed event log; non-trivial = at least two controllers or two senders; distinct = hash of the case";
+
 pub fn run(ctx: &Ctx, findings: &Findings) -> PropReport {
     let mut subs = vec![];
     CASE_THREADS.store(false, std::sync::atomic::Ordering::Relaxed);
     if let Some(path) = &ctx.replay {
         let v: serde_json::Value = serde_json::from_str(&std::fs::read_to_string(path).expect("replay file")).expect("json");
-        for name in ["schedules", "exhaustive", "exhaustive-2ctrl"] {
+        for name in ["schedules", "free-running", "exhaustive", "exhaustive-2ctrl"] {
             if let Some(r) = replay_case::<SCase>(ctx, findings, name, &v, &check) {
                 subs.push(r);
             }
@@ -393,6 +426,7 @@ pub fn run(ctx: &Ctx, findings: &Findings) -> PropReport {
     } else {
         subs.push(drive(ctx, findings, "schedules", RULE, ctx.cases(12000, 400000), strategy, &check));
         let len = ctx.tier.pick(7, 9);
+        subs.push(drive(ctx, findings, "free-running", RULE_FREE, ctx.cases(6000, 300000), free_strategy, &check));
         subs.push(drive_enum(ctx, findings, "exhaustive", RULE, exhaustive_cases(len), true, &check));
         subs.push(drive_enum(ctx, findings, "exhaustive-2ctrl", RULE, exhaustive_cases_two_controllers(ctx.tier.pick(6, 9)), true, &check));
     }
@@ -401,7 +435,7 @@ pub fn run(ctx: &Ctx, findings: &Findings) -> PropReport {
         subs,
         assumptions: vec![
             "sequentially consistent interleavings only (all atomics involved are SeqCst); the crossbeam channel internals are trusted".into(),
-            "a context switch can only happen at a hook point: an access the hooks miss is not pre-empted".into(),
+            "in the scheduled sub-checks a context switch can only happen at a hook point: an access the hooks miss is not pre-empted there; the free-running sub-check races real threads instead (OS scheduling, not enumerated, not reproducible)".into(),
             "the exhaustive sub-check enumerates every schedule PREFIX of the stated length (the remainder runs round robin); it is exhaustive within that bound only".into(),
         ],
         extra: Default::default(),
